@@ -226,7 +226,7 @@ def no_follow(ctx):
 
 
 # ------------------------------------------------------------------ C13
-@rule("C13.INHERIT", ["C13"], """for every `X.output` input the resolver appends X's whole output (files and commands) to the consumer's input""", "K1", floor=2)
+@rule("C13.INHERIT", ["C13", "C02"], """for every `X.output` input the resolver appends X's whole output (files and commands) to the consumer's input""", "K1", floor=2)
 def inherit(ctx):
     f = ctx.f
     rs = ctx.r.resolvers()
@@ -505,6 +505,35 @@ def filter_atoms(ctx):
         G = guard_region(cb, lambda d: d[0] == "call" and d[1].endswith("::is_empty"), False)
         for s in sends:
             ctx.check(s[0] in G, f"{short(cb.name)}/notify-only-if-relevant", [site(cb, s[0])], "the callback notifies even when no relevant path was in the event (own state writes / temporaries would trigger rebuild loops)")
+
+
+@rule("C16.NOTIFY-UNCONDITIONAL", ["C16", "C06"], """once an event carries a relevant path the callback notifies: the only conditions between the callback's entry and the notification are 'the event is Ok'
+      and 'some path was kept' (no event-kind filter, no debounce, no rate limit can swallow a relevant change)""", "K1", floor=1)
+def notify_unconditional(ctx):
+    r = ctx.r
+    for (cb, parent, pbb) in r.notify_callbacks():
+        sends = [s for s in send_calls(cb) if tyname(s[2]) == "TargetInvalidatedMessage"]
+        ctx.need(sends, "notification send in the callback")
+        for s in sends:
+            # path-based (an early `return` under a disjunction of patterns dominates nothing): every decision taken on a path from the entry to the send
+            paths = enumerate_paths(cb, stop_at={s[0]})
+            paths = [p for p in paths if p and p[-1].dst == s[0]]
+            ctx.need(paths, "path from the callback's entry to the notification")
+            extra = {}
+            for p in paths:
+                for (k, v, o, e) in path_facts(cb, p):
+                    if k == "bool":
+                        descs = bool_atom_desc(cb, e.label[2])
+                        if conditions_within([(e, descs, v)], [(lambda d: d[0] == "call" and d[1].endswith("::is_empty"), False)]):
+                            extra[(e.src, e.dst)] = fmt_conds([(e, descs, v)])
+                    else:
+                        on_param = origin_matches(o, lambda x: x[0] == "param") and not origin_matches(o, lambda x: x[0] == "field" and any(n not in ("0", "Ok", "Err") for n in x[1]), through_fields=False)
+                        if e.label[1] == "std::task::Poll" or path_ends(e.label[1] or "", "Level") or path_ends(e.label[1] or "", "LevelFilter"):
+                            continue
+                        if not (path_ends(e.label[1] or "", "Result") and v == ("Ok",) and on_param):
+                            extra[(e.src, e.dst)] = f"{'/'.join(v)} of {(e.label[1] or '').split('::')[-1]}"
+            ctx.check(not extra, f"{short(cb.name)}/only-relevance-guards", [site(cb, s[0])],
+                      "the notification depends on a further decision (" + "; ".join(sorted(set(extra.values()))[:4]) + "): some relevant change can be swallowed", detail=f"{len(paths)} paths to the notification")
 
 
 @rule("C16.NO-PANIC", ["C16"], """no panic-capable site in the watcher callback and everything it calls: no event or file name can kill the watcher thread""", "K9", floor=0)
